@@ -331,7 +331,9 @@ CLAIMS = {
        "payload is written; jose jwe dec exits 0 exactly when unwrapping, decryptor construction and authenticated "
        "decryption succeeded, writes the plaintext only then and nothing on failure; the compact text "
        "protected.payload.signature parses back to exactly its three fields; jwk eql succeeds exactly when the library "
-       "says equal; jose jwe fmt is modelled (Cli.jweFmt): compact output of an object whose recipients list does not have "
+       "says equal; jose jwe enc is modelled (Cli.jweEnc: fails without key, with -c and several keys, and whenever the "
+       "library refuses to wrap; its output is compared byte for byte under a RAND_bytes tape for every deterministic "
+       "key management); jose jwe fmt is modelled (Cli.jweFmt): compact output of an object whose recipients list does not have "
        "exactly one element fails and prints nothing. Differential run (~5.8k command lines quick, 529 of them a fixed "
        "deterministic set for the primitive-free subcommands) of the working tree's cmd/ code (forked in the ASan "
        "harness, files and stdin) against the model and, independently, against the library through the harness: every "
